@@ -19,6 +19,7 @@ import (
 
 	"github.com/kaptinlin/gozod"
 	"github.com/kaptinlin/gozod/core"
+	"github.com/kaptinlin/gozod/types"
 
 	"verifharness/hx"
 )
@@ -274,8 +275,17 @@ func runStrings(o *hx.Out, r *hx.Rng, n int) {
 		}
 		ctorPtr := r.Chance(40)
 		var schema any = gozod.String()
+		family, ctorName := "str", "String"
 		if ctorPtr {
-			schema = gozod.StringPtr()
+			schema, ctorName = gozod.StringPtr(), "StringPtr"
+		}
+		switch {
+		case r.Chance(5):
+			schema, ctorPtr, family, ctorName = types.StringTyped[myStr](), false, "strN", "types.StringTyped[myStr]"
+		case !ctorPtr && r.Chance(10):
+			schema, ctorName = types.StringTyped[string](), "types.StringTyped[string]"
+		case ctorPtr && r.Chance(10):
+			schema, ctorName = types.StringTyped[*string](), "types.StringTyped[*string]"
 		}
 		var toks []string
 		parents := []any{schema}
@@ -292,8 +302,9 @@ func runStrings(o *hx.Out, r *hx.Rng, n int) {
 				applyStrCheck(par, 90+pos, chk{kind: "sw", s: "decoy"})
 			}
 		}
-		head := fmt.Sprintf("c01 str %s %d %s", hx.B01(ctorPtr), len(cs), strings.Join(toks, " "))
+		head := fmt.Sprintf("c01 %s %s %d %s", family, hx.B01(ctorPtr), len(cs), strings.Join(toks, " "))
 		emit := func(tok string, v any, how string) {
+			how += " " + ctorName
 			res, err, pm := parseVia(schema, reflect.ValueOf(v))
 			obs := ""
 			switch {
@@ -302,7 +313,7 @@ func runStrings(o *hx.Out, r *hx.Rng, n int) {
 			case err != nil:
 				obs = classifyErr(err)
 			default:
-				if d, ok := derefAll(res).(string); ok {
+				if d, ok := underlying(derefAll(res)).(string); ok {
 					obs = "ok:" + hexs(d)
 				} else {
 					obs = fmt.Sprintf("ok:?%T", res)
@@ -310,6 +321,13 @@ func runStrings(o *hx.Out, r *hx.Rng, n int) {
 			}
 			o.Emit(strings.Join(strings.Fields(head+" | "+tok+" #"+how), " "), obs)
 			o.Count("str:" + strings.SplitN(obs, ":", 3)[0] + ":" + strings.SplitN(how, " ", 2)[0])
+		}
+		if family == "strN" {
+			emit(hexs(in), myStr(in), "named-value")
+			np := myStr(in)
+			emit(hexs(in)+"*", &np, "named-pointer")
+			emit("foreign", in, "foreign string")
+			continue
 		}
 		emit(hexs(in), in, "string")
 		p := in
@@ -358,19 +376,80 @@ var numKinds = []numKind{
 	{"f32", true, 32, true}, {"f64", true, 64, true},
 }
 
-var numCtors = map[string][2]func() any{
-	"i8":   {func() any { return gozod.Int8() }, func() any { return gozod.Int8Ptr() }},
-	"i16":  {func() any { return gozod.Int16() }, func() any { return gozod.Int16Ptr() }},
-	"i32":  {func() any { return gozod.Int32() }, func() any { return gozod.Int32Ptr() }},
-	"i64":  {func() any { return gozod.Int64() }, func() any { return gozod.Int64Ptr() }},
-	"int":  {func() any { return gozod.Int() }, func() any { return gozod.IntPtr() }},
-	"u8":   {func() any { return gozod.Uint8() }, func() any { return gozod.Uint8Ptr() }},
-	"u16":  {func() any { return gozod.Uint16() }, func() any { return gozod.Uint16Ptr() }},
-	"u32":  {func() any { return gozod.Uint32() }, func() any { return gozod.Uint32Ptr() }},
-	"u64":  {func() any { return gozod.Uint64() }, func() any { return gozod.Uint64Ptr() }},
-	"uint": {func() any { return gozod.Uint() }, func() any { return gozod.UintPtr() }},
-	"f32":  {func() any { return gozod.Float32() }, func() any { return gozod.Float32Ptr() }},
-	"f64":  {func() any { return gozod.Float64() }, func() any { return gozod.Float64Ptr() }},
+// numCtor: one exported constructor of a numeric schema (package gozod, and the aliases / generic constructors that
+// only package types exports).
+type numCtor struct {
+	name string
+	ptr  bool
+	mk   func() any
+}
+
+func vp(name string, v, p func() any) []numCtor {
+	return []numCtor{{name, false, v}, {name + "Ptr", true, p}}
+}
+
+var numCtors = map[string][]numCtor{
+	"i8":  vp("Int8", func() any { return gozod.Int8() }, func() any { return gozod.Int8Ptr() }),
+	"i16": vp("Int16", func() any { return gozod.Int16() }, func() any { return gozod.Int16Ptr() }),
+	"i32": append(vp("Int32", func() any { return gozod.Int32() }, func() any { return gozod.Int32Ptr() }),
+		append(vp("types.Rune", func() any { return types.Rune() }, func() any { return types.RunePtr() }),
+			numCtor{"types.IntegerTyped[int32]", false, func() any { return types.IntegerTyped[int32]() }})...),
+	"i64": append(vp("Int64", func() any { return gozod.Int64() }, func() any { return gozod.Int64Ptr() }),
+		numCtor{"types.Integer", false, func() any { return types.Integer() }},
+		numCtor{"types.IntegerTyped[int64]", false, func() any { return types.IntegerTyped[int64]() }}),
+	"int": append(vp("Int", func() any { return gozod.Int() }, func() any { return gozod.IntPtr() }),
+		numCtor{"types.IntegerTyped[int]", false, func() any { return types.IntegerTyped[int]() }}),
+	"u8": append(vp("Uint8", func() any { return gozod.Uint8() }, func() any { return gozod.Uint8Ptr() }),
+		vp("types.Byte", func() any { return types.Byte() }, func() any { return types.BytePtr() })...),
+	"u16":  vp("Uint16", func() any { return gozod.Uint16() }, func() any { return gozod.Uint16Ptr() }),
+	"u32":  vp("Uint32", func() any { return gozod.Uint32() }, func() any { return gozod.Uint32Ptr() }),
+	"u64":  vp("Uint64", func() any { return gozod.Uint64() }, func() any { return gozod.Uint64Ptr() }),
+	"uint": vp("Uint", func() any { return gozod.Uint() }, func() any { return gozod.UintPtr() }),
+	"f32": append(vp("Float32", func() any { return gozod.Float32() }, func() any { return gozod.Float32Ptr() }),
+		numCtor{"types.FloatTyped[float32]", false, func() any { return types.FloatTyped[float32]() }}),
+	"f64": append(vp("Float64", func() any { return gozod.Float64() }, func() any { return gozod.Float64Ptr() }),
+		append(vp("Float", func() any { return gozod.Float() }, func() any { return gozod.FloatPtr() }),
+			append(vp("Number", func() any { return gozod.Number() }, func() any { return gozod.NumberPtr() }),
+				numCtor{"types.FloatTyped[float64]", false, func() any { return types.FloatTyped[float64]() }})...)...),
+}
+
+// named Go types with the underlying type of a schema type (type Celsius float64): the generic constructors of package
+// types admit them (`~int | …`). A value of the named type is the schema's own Go type there; for the constructors of
+// the predeclared types it is a foreign kind (README "strict type semantics": String() only accepts string).
+type myI32 int32
+type myU8 uint8
+type myF64 float64
+type myBool bool
+
+var namedCtors = map[string]numCtor{
+	"int": {"types.IntegerTyped[myInt]", false, func() any { return types.IntegerTyped[myInt]() }},
+	"i32": {"types.IntegerTyped[myI32]", false, func() any { return types.IntegerTyped[myI32]() }},
+	"u8":  {"types.IntegerTyped[myU8]", false, func() any { return types.IntegerTyped[myU8]() }},
+	"f64": {"types.FloatTyped[myF64]", false, func() any { return types.FloatTyped[myF64]() }},
+}
+
+var namedTypes = map[string]reflect.Type{
+	"int": reflect.TypeOf(myInt(0)), "i32": reflect.TypeOf(myI32(0)), "u8": reflect.TypeOf(myU8(0)), "f64": reflect.TypeOf(myF64(0)),
+}
+
+// underlying converts a value of a named numeric type back to its predeclared type (for the value token).
+func underlying(v any) any {
+	rv := reflect.ValueOf(v)
+	switch rv.Kind() {
+	case reflect.Int:
+		return int(rv.Int())
+	case reflect.Int32:
+		return int32(rv.Int())
+	case reflect.Uint8:
+		return uint8(rv.Uint())
+	case reflect.Float64:
+		return rv.Float()
+	case reflect.String:
+		return rv.String()
+	case reflect.Bool:
+		return rv.Bool()
+	}
+	return v
 }
 
 func goNum(k numKind, i int64, u uint64, f float64) any {
@@ -460,8 +539,16 @@ func runNums(o *hx.Out, r *hx.Rng, n int) {
 	fv := foreignValues()
 	for it := 0; it < n; it++ {
 		k := hx.Pick(r, numKinds)
-		variant := r.Intn(2)
-		var schema any = numCtors[k.name][variant]()
+		ctor := hx.Pick(r, numCtors[k.name])
+		family := "num"
+		if nc, ok := namedCtors[k.name]; ok && r.Chance(8) {
+			ctor, family = nc, "numN"
+		}
+		variant := 0
+		if ctor.ptr {
+			variant = 1
+		}
+		var schema any = ctor.mk()
 		in := randNum(r, k)
 		nchecks := r.Intn(8)
 		var toks []string
@@ -542,8 +629,16 @@ func runNums(o *hx.Out, r *hx.Rng, n int) {
 				}
 			}
 		}
-		head := fmt.Sprintf("c01 num %s %d %d %s", k.name, variant, nchecks, strings.Join(toks, " "))
+		head := fmt.Sprintf("c01 %s %s %d %d %s", family, k.name, variant, nchecks, strings.Join(toks, " "))
 		emit := func(tok string, v any, how string) {
+			how += " " + ctor.name
+			if family == "numN" && reflect.TypeOf(v) == reflect.TypeOf(in) {
+				v = reflect.ValueOf(v).Convert(namedTypes[k.name]).Interface() // the schema's own (named) Go type
+			} else if family == "numN" && reflect.TypeOf(v) == reflect.PointerTo(reflect.TypeOf(in)) {
+				nv := reflect.New(namedTypes[k.name])
+				nv.Elem().Set(reflect.ValueOf(v).Elem().Convert(namedTypes[k.name]))
+				v = nv.Interface()
+			}
 			res, err, pm := parseVia(schema, reflect.ValueOf(v))
 			obs := ""
 			switch {
@@ -553,6 +648,9 @@ func runNums(o *hx.Out, r *hx.Rng, n int) {
 				obs = classifyErr(err)
 			default:
 				d := derefAll(res)
+				if family == "numN" && d != nil && reflect.TypeOf(d) == namedTypes[k.name] {
+					d = underlying(d)
+				}
 				if reflect.TypeOf(d) == reflect.TypeOf(in) {
 					obs = "ok:" + strings.Replace(numTok(k, d), " ", ":", 1)
 				} else {
@@ -560,7 +658,8 @@ func runNums(o *hx.Out, r *hx.Rng, n int) {
 				}
 			}
 			o.Emit(strings.Join(strings.Fields(head+" | "+tok+" #"+how), " "), obs)
-			o.Count("num:" + k.name + ":" + strings.SplitN(obs, ":", 3)[0])
+			o.Count(family + ":" + k.name + ":" + strings.SplitN(obs, ":", 3)[0])
+			o.Count("ctor:" + ctor.name)
 		}
 		emit(numTok(k, in), in, "value")
 		pv := reflect.New(reflect.TypeOf(in))
@@ -804,7 +903,23 @@ func runBools(o *hx.Out, r *hx.Rng, n int) {
 			}
 			schema = s
 		}
-		head := fmt.Sprintf("c01 bool %d %d %s", variant, nref, strings.Join(toks, " "))
+		family := "bool"
+		if r.Chance(6) {
+			// BoolTyped[myBool]: the named type is the schema's own Go type
+			s := types.BoolTyped[myBool]()
+			toks, variant = nil, 0
+			for pos := 0; pos < nref; pos++ {
+				k := r.Intn(3)
+				s = s.Refine(func(v myBool) bool { return boolPred(k, bool(v)) }, fmt.Sprintf("m%d", pos))
+				toks = append(toks, "ref "+strconv.Itoa(k))
+			}
+			schema, family = s, "boolN"
+		} else if r.Chance(10) {
+			if variant == 0 && nref == 0 {
+				schema = types.BoolTyped[bool]()
+			}
+		}
+		head := fmt.Sprintf("c01 %s %d %d %s", family, variant, nref, strings.Join(toks, " "))
 		try := func(tok string, v any, how string) {
 			res, err, pm := parseVia(schema, reflect.ValueOf(v))
 			obs := ""
@@ -814,7 +929,7 @@ func runBools(o *hx.Out, r *hx.Rng, n int) {
 			case err != nil:
 				obs = classifyErr(err)
 			default:
-				if b, ok := derefAll(res).(bool); ok {
+				if b, ok := underlying(derefAll(res)).(bool); ok {
 					obs = "ok:bool:" + strconv.FormatBool(b)
 				} else {
 					obs = fmt.Sprintf("ok:?%T", res)
@@ -824,6 +939,13 @@ func runBools(o *hx.Out, r *hx.Rng, n int) {
 			o.Count("bool:" + strings.SplitN(obs, ":", 2)[0] + ":" + strings.SplitN(how, " ", 2)[0])
 		}
 		b := r.Bool()
+		if family == "boolN" {
+			try("bool:"+strconv.FormatBool(b), myBool(b), "named-value")
+			nb := myBool(b)
+			try("bool:"+strconv.FormatBool(b)+"*", &nb, "named-pointer")
+			try("foreign", b, "foreign bool")
+			continue
+		}
 		try("bool:"+strconv.FormatBool(b), b, "bool")
 		bb := b
 		try("bool:"+strconv.FormatBool(b)+"*", &bb, "*bool")
